@@ -311,7 +311,8 @@ def _ivector_case(case, c, s, o):
     t = 1 + cfg % 2
 
     def mk(u, ar):
-        m = IVectorMachine(u, dim_t=t, update_sigma=bool(cfg // 2), variance_floor=1e-12 * float((ar * ar).min()) * s * s)  # the floor travels with the units
+        # the floor travels with the units; for odd configurations it is exactly 0 (the only unit-free setting)
+        m = IVectorMachine(u, dim_t=t, update_sigma=bool(cfg // 2), variance_floor=(0.0 if cfg % 2 else 1e-12 * float((ar * ar).min()) * s * s))
         m.dim_c, m.dim_d = C, D
         m.T = (c11._pattern((C, D, t), cfg, s) + 0.25 * s) * ar[None, :, None]
         m.sigma = (np.abs(c11._pattern((C, D), cfg + 1, 1.0)) + 0.25) * s * s * (ar * ar)[None, :]
